@@ -270,6 +270,15 @@ def directed_histories():
     mk("custom patch appears and vanishes",
        ("custom_on sa", lambda w: w.put("user/sa.custom.yaml", {"kind": "custom", "patch": [["speller/algebra/+", ["derive/^g/k/"]]]})),
        ("custom_off sa", lambda w: w.remove("user/sa.custom.yaml")))
+    mk("custom patch commented out, then emptied, then restored",
+       ("custom_on sa", lambda w: w.put("user/sa.custom.yaml", {"kind": "custom", "patch": [["speller/algebra/+", ["derive/^g/k/"]]]})),
+       ("custom_commented sa", lambda w: w.put("user/sa.custom.yaml", {"kind": "custom", "patch": [], "commented": "comments"})),
+       ("custom_empty sa", lambda w: w.put("user/sa.custom.yaml", {"kind": "custom", "patch": [], "commented": "empty"})),
+       ("custom_on sa", lambda w: w.put("user/sa.custom.yaml", {"kind": "custom", "patch": [["speller/algebra/+", ["derive/^g/k/"]]]})))
+    mk("comment-only default.custom",
+       ("defcustom_commented", lambda w: w.put("user/default.custom.yaml", {"kind": "custom", "patch": [], "commented": "comments"})),)
+    mk("comment-only custom of a schema, last",
+       ("custom_commented sb", lambda w: w.put("user/sb.custom.yaml", {"kind": "custom", "patch": [], "commented": "comments"})),)
     mk("default.custom appears and vanishes",
        ("defcustom_on", lambda w: w.put("user/default.custom.yaml", {"kind": "custom", "patch": [["schema_list", ["{schema: sb}"]]]})),
        ("defcustom_off", lambda w: w.remove("user/default.custom.yaml")))
